@@ -5,6 +5,7 @@ import (
 	"go/token"
 	"go/types"
 	"math"
+	"sort"
 
 	"golang.org/x/tools/go/ssa"
 )
@@ -124,8 +125,50 @@ func ruleNoOverflow(names ...string) func(p *Prog, l *Ledger, tier string) {
 			}
 			fns := []*ssa.Function{root}
 			fns = append(fns, root.AnonFuncs...)
+			// library helpers the conversion was extracted into: their integer parameters range over what
+			// the call sites (inside the root and its other helpers) pass
+			seeded := map[*ssa.Function]map[ssa.Value]float64{}
+			for round := 0; round < 3; round++ {
+				for _, h := range p.Helpers(root) {
+					if h == root || fnPkg(h) != p.LibSSA || h.Parent() != nil {
+						continue
+					}
+					for _, caller := range p.Helpers(root) {
+						cm := map[ssa.Value]float64{}
+						for k, v := range seeded[caller] {
+							cm[k] = v
+						}
+						for _, b := range caller.Blocks {
+							for _, ins := range b.Instrs {
+								c, ok := ins.(ssa.CallInstruction)
+								if !ok || c.Common().StaticCallee() != h {
+									continue
+								}
+								if seeded[h] == nil {
+									seeded[h] = map[ssa.Value]float64{}
+								}
+								for k, prm := range h.Params {
+									if k < len(c.Common().Args) && (isIntegerT(prm.Type()) || isDurationT(prm.Type())) {
+										m := magnitude(c.Common().Args[k], cm, 0)
+										if m > seeded[h][prm] {
+											seeded[h][prm] = m
+										}
+									}
+								}
+							}
+						}
+					}
+				}
+			}
+			for h := range seeded {
+				fns = append(fns, h)
+			}
+			sort.Slice(fns, func(i, j int) bool { return FnName(fns[i]) < FnName(fns[j]) })
 			for _, fn := range fns {
 				memo := map[ssa.Value]float64{}
+				for k, v := range seeded[fn] {
+					memo[k] = v
+				}
 				for _, b := range fn.Blocks {
 					for _, ins := range b.Instrs {
 						m, ok := ins.(*ssa.BinOp)
@@ -134,6 +177,18 @@ func ruleNoOverflow(names ...string) func(p *Prog, l *Ledger, tier string) {
 						}
 						if _, c1 := constInt(m.X); c1 {
 							if _, c2 := constInt(m.Y); c2 {
+								continue
+							}
+						}
+						// in a helper only the products of what the conversion hands it are its business
+						if fn != root && fn.Parent() == nil {
+							fromParam := false
+							for prm := range seeded[fn] {
+								if mentions(m, prm, 0) {
+									fromParam = true
+								}
+							}
+							if !fromParam {
 								continue
 							}
 						}
